@@ -85,9 +85,10 @@ func build(d descriptor) *built {
 func evOf(d gen.EventDef) *model.Ev { return &model.Ev{Kind: d.Kind, Ref: d.Ref, Op: d.Op} }
 
 // restricted: the known findings are constructed around:
-//   C10-F1 every boundary event of the host fires (otherwise its listener keeps the instance from completing)
-//   C10-F2 no interrupting boundary events
-//   C10-F3 every boundary event fires at most once
+//
+//	C10-F1 every boundary event of the host fires (otherwise its listener keeps the instance from completing)
+//	C10-F2 no interrupting boundary events
+//	C10-F3 every boundary event fires at most once
 func draw(rt *rapid.T) descriptor {
 	exF1, exF2, exF3 := rec.Exclude("C10-F1"), rec.Exclude("C10-F2"), rec.Exclude("C10-F3")
 	kinds := append([]string{"sub"}, gen.TaskKinds...)
@@ -116,6 +117,18 @@ func draw(rt *rapid.T) descriptor {
 		for _, i := range order {
 			if rapid.IntRange(0, 3).Draw(rt, "nm") == 0 {
 				d.Script = append(d.Script, nonMatch)
+			}
+			if rapid.IntRange(0, 2).Draw(rt, "backToBack") == 0 {
+				// several non-matching events and the matching one, delivered back-to-back
+				k := rapid.IntRange(2, 5).Draw(rt, "k")
+				var evs []drive.Stim
+				for j := 0; j < k; j++ {
+					evs = append(evs, nonMatch)
+				}
+				pos := rapid.IntRange(0, k).Draw(rt, "pos")
+				evs = append(evs[:pos], append([]drive.Stim{ev(i)}, evs[pos:]...)...)
+				d.Script = append(d.Script, drive.Stim{Kind: "rapid", Burst: evs})
+				continue
 			}
 			d.Script = append(d.Script, ev(i))
 		}
@@ -183,7 +196,7 @@ func knownMatch(d descriptor, out *drive.ScriptOutcome, bt *built) string {
 	matches := map[int]int{}
 	for _, s := range d.Script {
 		stims := []drive.Stim{s}
-		if s.Kind == "burst" {
+		if s.Kind == "burst" || s.Kind == "rapid" {
 			stims = s.Burst
 		}
 		for _, x := range stims {
@@ -236,6 +249,10 @@ func classify(d descriptor, out *drive.ScriptOutcome) (cls []string, nt bool) {
 		if s.Kind == "burst" {
 			events++
 			cls = append(cls, "eventRacesAnswer")
+		}
+		if s.Kind == "rapid" {
+			events += len(s.Burst)
+			cls = append(cls, "backToBack")
 		}
 	}
 	cls = append(cls, "host="+d.HostKind, fmt.Sprintf("bounds=%d", len(d.Bounds)))
